@@ -65,8 +65,9 @@ fn supervise(args: &[String]) -> i32 {
     use std::process::Command;
     let id = args[1].as_str();
     let exe = std::env::current_exe().expect("current exe");
-    let _ = std::fs::create_dir_all("/verif/target");
-    let journal = format!("/verif/target/journal-{id}.bin");
+    let out = report::out_dir();
+    let _ = std::fs::create_dir_all(format!("{out}/target"));
+    let journal = format!("{out}/target/journal-{id}.bin");
     let status = Command::new(&exe).args(&args[1..]).env("NVCHECK_CHILD", "1").env("NVCHECK_JOURNAL", &journal).status();
     let status = match status {
         Ok(s) => s,
@@ -87,7 +88,7 @@ fn supervise(args: &[String]) -> i32 {
         if !seen.insert((tag.clone(), what.clone())) {
             continue;
         }
-        let probe = format!("/verif/target/probe-{id}-{n}.json");
+        let probe = format!("{out}/target/probe-{id}-{n}.json");
         let _ = std::fs::write(&probe, serde_json::json!({"tag": tag, "what": what}).to_string());
         let st = Command::new(&exe).args([id, "--probe", probe.as_str()]).env("NVCHECK_CHILD", "1").status();
         let died = match st {
@@ -95,8 +96,8 @@ fn supervise(args: &[String]) -> i32 {
             Err(_) => false,
         };
         if died {
-            let _ = std::fs::create_dir_all("/verif/replays");
-            let path = format!("/verif/replays/{id}-crash-{n}.json");
+            let _ = std::fs::create_dir_all(format!("{out}/replays"));
+            let path = format!("{out}/replays/{id}-crash-{n}.json");
             let body = serde_json::json!({"property": id, "summary": "the process is killed (stack overflow / abort) while handling this case",
                 "case": {"op": "crash", "tag": tag, "what": what}});
             let _ = std::fs::write(&path, serde_json::to_string_pretty(&body).unwrap());
@@ -106,7 +107,7 @@ fn supervise(args: &[String]) -> i32 {
                 "seed": 0, "level": "model_checking", "wall_s": 0.0, "violations": 1,
                 "coverage": {"evaluations": cands.len(), "distinct_nontrivial": 0, "exhaustive": false,
                     "samples": [{"crashing_case": what}], "rule": "the check process was killed; in-flight cases from the crash journal were probed in subprocesses"}});
-            let _ = std::fs::write(format!("/verif/evidence/{id}.json"), serde_json::to_string_pretty(&ev).unwrap());
+            let _ = std::fs::write(format!("{out}/evidence/{id}.json"), serde_json::to_string_pretty(&ev).unwrap());
             return 1;
         }
     }
